@@ -9,13 +9,16 @@ Definition YE_FETCH := 60. Definition YE_ENQ := 121. Definition YE_SWAP := 122. 
 Definition YE_POLL := 132. Definition YE_DRAIN := 103. Definition YE_STORE := 123. Definition YE_RECV := 124.
 
 Inductive tstate_e := TIdle | TSched | TDone.
-Record task := mkTask { tk_state : tstate_e; tk_script : list bool; tk_polls : N; tk_delivered : N }.
+Record task := mkTask { tk_state : tstate_e; tk_script : list N; tk_polls : N; tk_delivered : N }.
 
 Inductive wstage := WIdle | W1 (j : nat) | W2 | W3.               (* a waker thread inside Sender::send *)
 Record wthread := mkWT { wt_ops : list nat; wt_stage : wstage }.  (* ops: indices of tasks to wake *)
 
 Inductive eop := ESched (j : nat) | EDispatch.
-Inductive estage := EI | ES1 (j : nat) | ES2 | ES3 | ED | EF | EL (left : nat) | ER.
+(* ELS1/2/3: the three effects of Sender::send for a task that woke itself during the poll just made by the dequeue loop
+   (async-task reschedules such a task from Runnable::run, on the loop thread, with woken_while_running set) *)
+Inductive estage := EI | ES1 (j : nat) | ES2 | ES3 | ED | EF | EL (left : nat) | ER
+                  | ELS1 (j : nat) (left : nat) | ELS2 (left : nat) | ELS3 (left : nat).
 Record ethread := mkET { et_ops : list eop; et_stage : estage }.
 
 Inductive eev := EStep (tid : nat) (yid : N) | EPolled (j : nat) | EDone (j : nat).
@@ -39,17 +42,20 @@ Definition set_task_state (l : list task) (j : nat) (st : tstate_e) : list task 
 Definition task_idle (l : list task) (j : nat) : bool :=
   match nth_error l j with Some t => match tk_state t with TIdle => true | _ => false end | None => false end.
 
-(* running a task on the loop thread: one poll, its scripted outcome *)
-Definition run_task (l : list task) (j : nat) : list task * list eev :=
+(* running a task on the loop thread: one poll, its scripted outcome (0 Pending, 1 Ready, 2 Pending after waking itself:
+   the task stays scheduled and Runnable::run sends it again); the flag says whether it has to be sent again *)
+Definition run_task (l : list task) (j : nat) : list task * list eev * bool :=
   match nth_error l j with
   | Some t =>
       match tk_script t with
-      | true :: r => (upd_task l j (mkTask TDone r (tk_polls t + 1) (tk_delivered t + 1)), [EDone j; EPolled j])
-      | false :: r => (upd_task l j (mkTask TIdle r (tk_polls t + 1) (tk_delivered t)), [EPolled j])
-      | [] => (upd_task l j (mkTask TIdle [] (tk_polls t + 1) (tk_delivered t)), [EPolled j])
+      | 1 :: r => (upd_task l j (mkTask TDone r (tk_polls t + 1) (tk_delivered t + 1)), [EDone j; EPolled j], false)
+      | 2 :: r => (upd_task l j (mkTask TSched r (tk_polls t + 1) (tk_delivered t)), [EPolled j], true)
+      | _ :: r => (upd_task l j (mkTask TIdle r (tk_polls t + 1) (tk_delivered t)), [EPolled j], false)
+      | [] => (upd_task l j (mkTask TIdle [] (tk_polls t + 1) (tk_delivered t)), [EPolled j], false)
       end
-  | None => (l, [])
+  | None => (l, [], false)
   end.
+Definition after_task (k : nat) : estage := match k with O => ER | _ => EL k end.
 
 Definition e_set (s : est) q n c tk lp th lg : est := mkE q n c tk lp th (ebatch s) lg.
 
@@ -85,11 +91,14 @@ Definition eloop_step (s : est) : est :=
   | EL (S k) =>
       match eq s with
       | j :: q' =>
-          let (tk', evs) := run_task (etasks s) j in
-          e_set s q' (enotified s) (ectr s) tk' (lp (match k with O => ER | _ => EL k end)) (ethr s) (evs ++ EStep 0 YE_RECV :: elog s)
+          let '(tk', evs, again) := run_task (etasks s) j in
+          e_set s q' (enotified s) (ectr s) tk' (lp (if again then ELS1 j k else after_task k)) (ethr s) (evs ++ EStep 0 YE_RECV :: elog s)
       | [] => e_set s [] (enotified s) (ectr s) (etasks s) (lp EI) (ethr s) (EStep 0 YE_RECV :: elog s)
       end
   | ER => send_ping s 0 (lp EI) (ethr s)
+  | ELS1 j k => send_enq s 0 j (lp (ELS2 k)) (ethr s)
+  | ELS2 k => send_swap s 0 (lp (ELS3 k)) (lp (after_task k)) (ethr s) (ethr s)
+  | ELS3 k => send_ping s 0 (lp (after_task k)) (ethr s)
   end.
 
 Definition wt_step (s : est) (i : nat) (t : wthread) : est :=
@@ -114,6 +123,6 @@ Definition e_step (s : est) (k : nat) : est :=
   | S i => match nth_error (ethr s) i with Some t => wt_step s i t | None => s end
   end.
 
-Definition e_init (batch : nat) (scripts : list (list bool)) (lops : list eop) (wprogs : list (list nat)) : est :=
+Definition e_init (batch : nat) (scripts : list (list N)) (lops : list eop) (wprogs : list (list nat)) : est :=
   mkE [] false 0 (map (fun sc => mkTask TIdle sc 0 0) scripts) (mkET lops EI) (map (fun p => mkWT p WIdle) wprogs) batch [].
 Definition e_run batch scripts lops wprogs (sched : list nat) : est := fold_left e_step sched (e_init batch scripts lops wprogs).
